@@ -330,12 +330,35 @@ pub fn depth_probe_cases(spec: SpecId) -> Vec<(String, Case)> {
         if kind == "STATICCALL" && spec < SpecId::BYZANTIUM {
             continue;
         }
-        for siblings in [0u64, 7, 60] {
+        for siblings in [0u64, 18, 72] {
             let mut a = Asm::new();
             let skip = a.new_label();
             a.push_u(0).op(0x35).push_label(skip).op(0x57);
+            // plain message call with no data and no output window
+            fn call0(a: &mut Asm, op: u8, to: revm::primitives::Address, gas: u64, value: U256) {
+                a.push_u(0).push_u(0).push_u(0).push_u(0);
+                if op == 0xf1 || op == 0xf2 {
+                    a.push(value);
+                }
+                a.push_addr(to).push_u(gas).op(op).op(0x50);
+            }
             for s in 0..siblings {
-                match s % 7 {
+                // every early-return path of make_call_frame / make_create_frame and every way a
+                // frame can end; kinds that need a later fork fall back to a codeless call
+                let mut k = s % 18;
+                if (k == 7 || k == 8) && spec < SpecId::PRAGUE {
+                    k = 2;
+                }
+                if k == 9 && spec < SpecId::BYZANTIUM {
+                    k = 2;
+                }
+                if k == 15 && spec < SpecId::PETERSBURG {
+                    k = 2;
+                }
+                if (k == 16 || k == 17) && spec < SpecId::HOMESTEAD {
+                    k = 2;
+                }
+                match k {
                     0 => {
                         // value transfer that fails (insufficient balance)
                         a.push_u(0).push_u(0).push_u(0).push_u(0).push(U256::MAX).push_addr(C2).push_u(50_000).op(0xf1).op(0x50);
@@ -362,9 +385,60 @@ pub fn depth_probe_cases(spec: SpecId) -> Vec<(String, Case)> {
                         a.push_u(0).push_u(0).push_u(0).op(0xf0).op(0x50);
                         a.push_u(0).push_u(0).push(U256::MAX).op(0xf0).op(0x50);
                     }
-                    _ => {
+                    6 => {
                         // call into a contract that reverts / halts
                         a.push_u(0).push_u(0).push_u(0).push_u(0).push_u(0).push_addr(C3).push_u(50_000).op(0xf1).op(0x50);
+                    }
+                    7 => {
+                        // EIP-7702: calls through a designator whose delegate has no code
+                        call0(&mut a, 0xf1, addr(0xd701), 50_000, U256::ZERO);
+                        call0(&mut a, 0xfa, addr(0xd701), 50_000, U256::ZERO);
+                        call0(&mut a, 0xf4, addr(0xd701), 50_000, U256::ZERO);
+                    }
+                    8 => {
+                        // EIP-7702: designator pointing at a precompile (executes as empty code)
+                        call0(&mut a, 0xf1, addr(0xd702), 50_000, U256::ZERO);
+                        call0(&mut a, 0xf2, addr(0xd702), 50_000, U256::ZERO);
+                    }
+                    9 => {
+                        // STATICCALL into a writer (static violation halts the callee)
+                        call0(&mut a, 0xfa, addr(0xd703), 60_000, U256::ZERO);
+                    }
+                    10 => {
+                        // value call whose credit overflows the recipient's balance
+                        call0(&mut a, 0xf1, addr(0xd704), 50_000, U256::from(1u8));
+                    }
+                    11 => {
+                        // CREATE by a contract whose nonce is 2^64-1 (inside a helper)
+                        call0(&mut a, 0xf1, addr(0xd705), 100_000, U256::ZERO);
+                    }
+                    12 => {
+                        // code deposit that cannot be paid (Frontier: succeeds with empty code;
+                        // later: out of gas), inside a helper with bounded gas
+                        call0(&mut a, 0xf1, addr(0xd706), 45_000, U256::ZERO);
+                    }
+                    13 => {
+                        // returned code too large (Spurious+) / starting with 0xEF (London+)
+                        call0(&mut a, 0xf1, addr(0xd707), 150_000, U256::ZERO);
+                        call0(&mut a, 0xf1, addr(0xd708), 100_000, U256::ZERO);
+                    }
+                    14 => {
+                        // init code above the EIP-3860 limit (Shanghai+: halts the creator), in a helper
+                        call0(&mut a, 0xf1, addr(0xd709), 150_000, U256::ZERO);
+                    }
+                    15 => {
+                        // CREATE2 twice with the same salt and init code: the second one collides
+                        call0(&mut a, 0xf1, addr(0xd70a), 200_000, U256::ZERO);
+                    }
+                    16 => {
+                        // DELEGATECALL to a codeless account and to a precompile
+                        call0(&mut a, 0xf4, NONEXISTENT, 50_000, U256::ZERO);
+                        call0(&mut a, 0xf4, precompile(2), 50_000, U256::ZERO);
+                    }
+                    _ => {
+                        // CALLCODE with a value it cannot pay; DELEGATECALL into a reverting contract
+                        call0(&mut a, 0xf2, C2, 50_000, U256::MAX);
+                        call0(&mut a, 0xf4, C3, 50_000, U256::ZERO);
                     }
                 }
             }
@@ -399,6 +473,45 @@ pub fn depth_probe_cases(spec: SpecId) -> Vec<(String, Case)> {
                 w.accounts.insert(C4, Acct { nonce: 1, code: h.finish(), ..Default::default() });
             }
             w.accounts.insert(C3, Acct { nonce: 1, code: if siblings % 2 == 0 { vec![0xfe] } else { vec![0x60, 0x00, 0x60, 0x00, 0xfd] }, ..Default::default() });
+            w.accounts.get_mut(&C1).unwrap().balance = U256::from(1000u64);
+            if spec >= SpecId::PRAGUE {
+                w.accounts.insert(addr(0xd701), Acct { nonce: 1, code: designator(NONEXISTENT), ..Default::default() });
+                w.accounts.insert(addr(0xd702), Acct { nonce: 1, code: designator(precompile(4)), ..Default::default() });
+            }
+            w.accounts.insert(addr(0xd703), Acct { nonce: 1, code: vec![0x60, 0x01, 0x60, 0x00, 0x55, 0x00], ..Default::default() });
+            w.accounts.insert(addr(0xd704), Acct { balance: U256::MAX, ..Default::default() });
+            // creator helpers: CREATE(0, 0, n) with the init code first written to memory
+            let creator = |init: &[u8], create2: bool, times: usize| -> Vec<u8> {
+                let mut h = Asm::new();
+                for (i, chunk) in init.chunks(32).enumerate() {
+                    let mut wd = [0u8; 32];
+                    wd[..chunk.len()].copy_from_slice(chunk);
+                    h.push32(U256::from_be_bytes(wd)).push_u(32 * i as u64).op(0x52);
+                }
+                for _ in 0..times {
+                    if create2 {
+                        h.push_u(0).push_u(init.len() as u64).push_u(0).push_u(0).op(0xf5).op(0x50);
+                    } else {
+                        h.push_u(init.len() as u64).push_u(0).push_u(0).op(0xf0).op(0x50);
+                    }
+                }
+                h.op(0x00);
+                h.finish()
+            };
+            // RETURN(0, n): n zero bytes of code
+            let ret_n = |n: u16| -> Vec<u8> { vec![0x61, (n >> 8) as u8, n as u8, 0x60, 0x00, 0xf3] };
+            w.accounts.insert(addr(0xd705), Acct { nonce: u64::MAX, code: creator(&[0x00], false, 1), ..Default::default() });
+            w.accounts.insert(addr(0xd706), Acct { nonce: 1, code: creator(&ret_n(300), false, 1), ..Default::default() });
+            w.accounts.insert(addr(0xd707), Acct { nonce: 1, code: creator(&ret_n(24_577), false, 1), ..Default::default() });
+            // MSTORE8(0, 0xEF); RETURN(0, 1)
+            w.accounts.insert(addr(0xd708), Acct { nonce: 1, code: creator(&[0x60, 0xef, 0x60, 0x00, 0x53, 0x60, 0x01, 0x60, 0x00, 0xf3], false, 1), ..Default::default() });
+            {
+                // CREATE(0, 0, 49153)
+                let mut h = Asm::new();
+                h.push_u(49_153).push_u(0).push_u(0).op(0xf0).op(0x50).op(0x00);
+                w.accounts.insert(addr(0xd709), Acct { nonce: 1, code: h.finish(), ..Default::default() });
+            }
+            w.accounts.insert(addr(0xd70a), Acct { nonce: 1, code: creator(&[0x00], true, 2), ..Default::default() });
             let mut tx = tx_to(C1, 1u64 << 56);
             tx.gas_price = U256::from(0u8);
             tx.data = vec![0u8; 32];
